@@ -118,7 +118,10 @@ def gen_cfg(rs, lp_kind, np_kind, labels="int", n_arms=None, deterministic=False
             with_probs=False, n_jobs=1, backend=None, seed=None):
     n_arms = int(n_arms if n_arms is not None else rs.integers(2, 5))
     arms = list(LABELS[labels][:n_arms])
-    return {"arms": arms, "labels": labels,
+    # hostile reward magnitudes: one class per configuration, never for linear policies (their comparisons carry a relative
+    # tolerance that assumes rewards of order one)
+    stress = int(rs.integers(5)) if (rs.integers(8) == 0 and lp_kind not in LIN_KINDS) else None
+    return {"arms": arms, "labels": labels, "reward_stress": stress,
             "lp": gen_lp(rs, lp_kind, deterministic, binarizer),
             "np": gen_np(rs, np_kind, n_arms, with_probs),
             "seed": int(seed if seed is not None else pick(rs, [0, 7, 42, 123456, 2 ** 31 - 1, int(rs.integers(10 ** 6))])),
@@ -210,17 +213,17 @@ def cfg_sig(cfg):
 
 
 # ------------------------------------------------------------------------------------------------- data
-def gen_rewards(rs, n, kind):
-    if kind in ("nonneg", "dyadic") and rs.integers(8) == 0:
-        # hostile magnitudes: the same exactly summable values scaled by a large or tiny power of two
-        mode = int(rs.integers(5))
-        base = gen_rewards(rs, n, kind + "_plain")
+def gen_rewards(rs, n, kind, stress=None):
+    """stress: None or 0..4 - one hostile magnitude class for the WHOLE history (mixing magnitudes inside one history would
+    make the sums inexact and 'bit-for-bit' meaningless): x 2^20, x 2^-20, x 2^40, x 2^-40, or + 2^33 (near-equal values)"""
+    if kind in ("nonneg", "dyadic") and stress is not None:
+        mode = int(stress)
+        base = gen_rewards(rs, n, kind)
         if mode == 4:
             # near-equal but different values: a large offset plus a small exactly representable part
             return [2.0 ** 33 + v for v in base] if kind == "nonneg" else [(2.0 ** 33 + v) * (-1.0 if rs.integers(2) else 1.0) for v in base]
         scale = float([2.0 ** 20, 2.0 ** -20, 2.0 ** 40, 2.0 ** -40][mode])
         return [v * scale for v in base]
-    kind = kind.replace("_plain", "")
     if kind == "binary":
         return [float(v) for v in rs.integers(0, 2, n)]
     if kind == "nonneg":
@@ -242,7 +245,7 @@ def gen_batch(rs, cfg, arms, n, nf=3, rkind=None, omit=None, distinct_rows=0, hi
     """one training batch over the given (current) arms; `omit` arms never occur in it"""
     pool = [a for a in arms if not omit or a not in omit] or list(arms)
     d = [pool[int(i)] for i in rs.integers(0, len(pool), n)]
-    r = gen_rewards(rs, n, rkind or reward_kind(cfg))
+    r = gen_rewards(rs, n, rkind or reward_kind(cfg), cfg.get("reward_stress"))
     X = None
     if is_ctx(cfg):
         for _ in range(50):
